@@ -5,70 +5,10 @@
   with any errno (the kernel's actual repertoire is an environment assumption).
 -/
 import Lc.Model.InUse
+import Lc.Lemmas.InUse
 
 namespace Lc.Props.C19
-open Lc Lc.InUse
-
-/-! ### helper facts about byte lists -/
-
-theorem hasPrefix_append (p x : Bytes) : hasPrefix (p ++ x) p = true := by
-  induction p with
-  | nil => cases x <;> simp [hasPrefix]
-  | cons a p ih => simp [hasPrefix, ih]
-
-theorem hasPrefix_elim : ∀ (s p : Bytes), hasPrefix s p = true → ∃ x, s = p ++ x := by
-  intro s p
-  induction p generalizing s with
-  | nil => intro _; exact ⟨s, by simp⟩
-  | cons a p ih =>
-    intro h
-    cases s with
-    | nil => simp [hasPrefix] at h
-    | cons b s =>
-      simp [hasPrefix] at h
-      obtain ⟨x, hx⟩ := ih s h.2
-      exact ⟨x, by simp [h.1, hx]⟩
-
-theorem indexByte_append (c : Nat) (n t : Bytes) (h : c ∉ n) :
-    indexByte c (n ++ c :: t) = some n.length := by
-  induction n with
-  | nil => simp [indexByte]
-  | cons a n ih =>
-    have ha : a ≠ c := by intro e; apply h; simp [e]
-    have hn : c ∉ n := by intro e; apply h; simp [e]
-    simp [indexByte, ha, ih hn]
-
-theorem indexByte_none (c : Nat) (n : Bytes) (h : c ∉ n) : indexByte c n = none := by
-  induction n with
-  | nil => simp [indexByte]
-  | cons a n ih =>
-    have ha : a ≠ c := by intro e; apply h; simp [e]
-    have hn : c ∉ n := by intro e; apply h; simp [e]
-    simp [indexByte, ha, ih hn]
-
-theorem indexByte_some (c : Nat) : ∀ (s : Bytes) (k : Nat), indexByte c s = some k →
-    c ∉ s.take k ∧ s = s.take k ++ c :: s.drop (k + 1) := by
-  intro s
-  induction s with
-  | nil => intro k h; simp [indexByte] at h
-  | cons a s ih =>
-    intro k h
-    by_cases ha : a = c
-    · simp [indexByte, ha] at h
-      subst h
-      simp [ha]
-    · simp only [indexByte, ha, if_false] at h
-      cases hk : indexByte c s with
-      | none => simp [hk] at h
-      | some j =>
-        simp [hk] at h
-        subst h
-        obtain ⟨h1, h2⟩ := ih j hk
-        refine ⟨?_, ?_⟩
-        · simp only [List.take_succ_cons, List.mem_cons, not_or]
-          exact ⟨fun e => ha e.symm, h1⟩
-        · simp only [List.take_succ_cons, List.drop_succ_cons, List.cons_append]
-          rw [← h2]
+open Lc Lc.InUse Lc.InUseLemmas
 
 /-- the scan prefix of a layers directory (other than "/") ends with a slash -/
 theorem scanPrefix_slash (d : Bytes) (h : d.length > 1) : (scanPrefix d).getLast? = some 47 := by
